@@ -32,6 +32,7 @@ fn base() -> WorldCfg {
         non_utf8: false,
         signed_wide: false,
         projected_bias: false,
+        wide_ids: false,
         odd_widths: false,
         max_records: 6,
         max_sets: 3,
@@ -117,6 +118,7 @@ fn exactness_toggles(c: &mut WorldCfg, rng: &mut Rng) {
     c.max_sets = rng.urange(1, 6);
     c.max_templates = rng.urange(1, 6);
     c.id_space = *rng.pick(&[2u16, 4, 8, 300]);
+    c.wide_ids = rng.chance(1, 3);
     if rng.chance(1, 12) {
         // an exporter with very many live templates (cache growth, nothing may be evicted)
         c.max_templates = rng.urange(130, 400);
